@@ -1,7 +1,7 @@
 (* Proofs about Model/C14.v: exact sign-test geometry of great-circle arcs.
    Vectors are integer direction vectors (homogeneous rational points).  All statements are for
    every input (no size bound); algebra by ring/nia, no axioms. *)
-From Coq Require Import ZArith Lia ZifyBool List Bool.
+From Coq Require Import ZArith Lia ZifyBool List Bool Nsatz.
 From Verif Require Import Base C14_consts C14.
 Local Open Scope Z_scope.
 
@@ -839,6 +839,207 @@ Proof.
   do 3 f_equal. c14_ring.
 Qed.
 
+
+(* ------------------------------------------------------------------------------------------ *)
+(* arcs on one meridian half: the same-longitude branch of point_within_gca *)
+
+
+(* ------------------------------------------------------------------------------------------ *)
+(* arcs on one meridian half: the same-longitude branch of point_within_gca                       *)
+
+Section Meridian.
+  Variables xa ya za xb yb zb xp yp zp : Z.
+  Let L := xa * xa + ya * ya.
+  Let Hb := xa * xb + ya * yb.
+  Let Hp := xa * xp + ya * yp.
+  Let Cab := L * zb - za * Hb.
+  Let Cap := L * zp - za * Hp.
+  Let Cpb := Hp * zb - zp * Hb.
+  Hypothesis Eab : xa * yb - ya * xb = 0.
+
+  Lemma c14_mer_triple :
+    L * c14_triple (xa,ya,za) (xb,yb,zb) (xp,yp,zp) = - Cab * (xa * yp - ya * xp).
+  Proof. unfold c14_triple, c14_dot, c14_cross, c14_x, c14_y, c14_z; cbn [fst snd]. subst L Hb Hp Cab Cap Cpb. nsatz. Qed.
+
+  Lemma c14_mer_nx : L * (ya * zb - za * yb) = ya * Cab.
+  Proof. subst L Hb Hp Cab Cap Cpb. nsatz. Qed.
+
+  Lemma c14_mer_ny : L * (za * xb - xa * zb) = - xa * Cab.
+  Proof. subst L Hb Hp Cab Cap Cpb. nsatz. Qed.
+
+  Hypothesis Eap : xa * yp - ya * xp = 0.
+
+  Lemma c14_mer_id1 :
+    c14_dot (c14_cross (xa,ya,za) (xp,yp,zp)) (c14_cross (xa,ya,za) (xb,yb,zb)) * L = Cap * Cab.
+  Proof. unfold c14_dot, c14_cross, c14_x, c14_y, c14_z; cbn [fst snd]. subst L Hb Hp Cab Cap Cpb. nsatz. Qed.
+
+  Lemma c14_mer_id2 :
+    c14_dot (c14_cross (xp,yp,zp) (xb,yb,zb)) (c14_cross (xa,ya,za) (xb,yb,zb)) * L = Cpb * Cab.
+  Proof. unfold c14_dot, c14_cross, c14_x, c14_y, c14_z; cbn [fst snd]. subst L Hb Hp Cab Cap Cpb. nsatz. Qed.
+
+  Lemma c14_mer_three : Hp * Cab = L * Cpb + Hb * Cap.
+  Proof. subst L Hb Hp Cab Cap Cpb. ring. Qed.
+
+  Lemma c14_mer_Hb2 : Hb * Hb = L * (xb * xb + yb * yb).
+  Proof. subst L Hb. nsatz. Qed.
+
+  Lemma c14_mer_Hp2 : Hp * Hp = L * (xp * xp + yp * yp).
+  Proof. subst L Hp. nsatz. Qed.
+End Meridian.
+
+(* z_u/|u| <= z_v/|v|  <->  Hu z_v - z_u Hv >= 0  for vectors on the same meridian half (Hu, Hv > 0, Hu^2 = L hu2, ...) *)
+Lemma c14_lat_le_meridian L zu hu2 Hu zv hv2 Hv :
+  0 < L -> 0 < Hu -> 0 < Hv -> Hu * Hu = L * hu2 -> Hv * Hv = L * hv2 ->
+  c14_lat_le (zu, hu2 + zu * zu) (zv, hv2 + zv * zv) = (0 <=? Hu * zv - zu * Hv).
+Proof.
+  intros HL HHu HHv Eu Ev. unfold c14_lat_le.
+  assert (K : forall s t, L * (s * s * (hv2 + zv * zv)) - L * (t * t * (hu2 + zu * zu))
+                          = s * s * (Hv * Hv) - t * t * (Hu * Hu) + L * (s * s * (zv * zv) - t * t * (zu * zu))).
+  { intros. rewrite Eu, Ev. ring. }
+  destruct (Z.leb_spec zu 0) as [Hzu|Hzu]; destruct (Z.leb_spec 0 zv) as [Hzv|Hzv].
+  - (* zu <= 0 <= zv *) symmetry. apply Z.leb_le. nia.
+  - (* zu <= 0, zv < 0 *)
+    pose proof (K zu zv) as K1.
+    assert (E : L * (zu * zu * (hv2 + zv * zv)) - L * (zv * zv * (hu2 + zu * zu)) = (zu * Hv) * (zu * Hv) - (zv * Hu) * (zv * Hu)) by (rewrite K1; ring).
+    destruct (Z.leb_spec (zv * zv * (hu2 + zu * zu)) (zu * zu * (hv2 + zv * zv))); destruct (Z.leb_spec 0 (Hu * zv - zu * Hv)); try reflexivity; exfalso; nia.
+  - destruct (Z.leb_spec zv 0) as [Hzv0|Hzv0].
+    + (* zu > 0, zv = 0 *) assert (zv = 0) by lia. subst zv. symmetry. apply Z.leb_gt. nia.
+    + pose proof (K zu zv) as K1.
+      assert (E : L * (zu * zu * (hv2 + zv * zv)) - L * (zv * zv * (hu2 + zu * zu)) = (zu * Hv) * (zu * Hv) - (zv * Hu) * (zv * Hu)) by (rewrite K1; ring).
+      destruct (Z.leb_spec (zu * zu * (hv2 + zv * zv)) (zv * zv * (hu2 + zu * zu))); destruct (Z.leb_spec 0 (Hu * zv - zu * Hv)); try reflexivity; exfalso; nia.
+  - (* zu > 0, zv < 0 *) destruct (Z.leb_spec zv 0); [|lia]. symmetry. apply Z.leb_gt. nia.
+Qed.
+
+
+Lemma c14_mul_pos_zero L N : 0 < L -> L * N = 0 -> N = 0.
+Proof. intros. nia. Qed.
+
+Lemma c14_mul_nonzero_zero C X : C <> 0 -> 0 = - C * X -> X = 0.
+Proof. intros. nia. Qed.
+
+Lemma c14_sq_sum_pos x y : x <> 0 \/ y <> 0 -> 0 < x * x + y * y.
+Proof. intros. nia. Qed.
+
+Lemma c14_sq_nonzero L Hp s : 0 < L -> 0 < s -> Hp * Hp = L * s -> Hp <> 0.
+Proof. intros HL Hs E E0. rewrite E0 in E. nia. Qed.
+
+Lemma c14_sign_prod_pos L X C D : 0 < L -> 0 < D -> X * L = C * D -> (0 <=? X) = (0 <=? C).
+Proof. intros. destruct (Z.leb_spec 0 X); destruct (Z.leb_spec 0 C); try reflexivity; exfalso; nia. Qed.
+
+Lemma c14_sign_prod_neg L X C D : 0 < L -> D < 0 -> X * L = C * D -> (0 <=? X) = (0 <=? - C).
+Proof. intros. destruct (Z.leb_spec 0 X); destruct (Z.leb_spec 0 (- C)); try reflexivity; exfalso; nia. Qed.
+
+Lemma c14_between_same_half L Hb Hp Cab Cap Cpb X1 X2 :
+  0 < L -> 0 < Hb -> 0 < Hp -> Cab <> 0 ->
+  X1 * L = Cap * Cab -> X2 * L = Cpb * Cab -> Hp * Cab = L * Cpb + Hb * Cap ->
+  (0 <=? Cap) && (0 <=? Cpb) || (0 <=? - Cpb) && (0 <=? - Cap) = (0 <=? X1) && (0 <=? X2).
+Proof.
+  intros HL HHb HHp HC I1 I2 I3.
+  destruct (Z_lt_le_dec 0 Cab) as [Hpos|Hneg].
+  - rewrite (c14_sign_prod_pos L X1 Cap Cab HL Hpos I1), (c14_sign_prod_pos L X2 Cpb Cab HL Hpos I2).
+    assert (0 < Hp * Cab) by nia.
+    destruct (Z.leb_spec 0 Cap); destruct (Z.leb_spec 0 Cpb); destruct (Z.leb_spec 0 (- Cpb)); destruct (Z.leb_spec 0 (- Cap));
+      cbn [andb orb]; try reflexivity; exfalso; nia.
+  - assert (Hn : Cab < 0) by lia.
+    rewrite (c14_sign_prod_neg L X1 Cap Cab HL Hn I1), (c14_sign_prod_neg L X2 Cpb Cab HL Hn I2).
+    assert (Hp * Cab < 0) by nia.
+    destruct (Z.leb_spec 0 Cap); destruct (Z.leb_spec 0 Cpb); destruct (Z.leb_spec 0 (- Cpb)); destruct (Z.leb_spec 0 (- Cap));
+      cbn [andb orb]; try reflexivity; exfalso; nia.
+Qed.
+
+Lemma c14_not_on_arc_other_half L Hb Hp Cab Cap Cpb X1 X2 :
+  0 < L -> 0 < Hb -> Hp < 0 -> Cab <> 0 ->
+  X1 * L = Cap * Cab -> X2 * L = Cpb * Cab -> Hp * Cab = L * Cpb + Hb * Cap ->
+  (0 <=? X1) && (0 <=? X2) = false.
+Proof.
+  intros HL HHb HHp HC I1 I2 I3.
+  destruct (Z_lt_le_dec 0 Cab) as [Hpos|Hneg].
+  - rewrite (c14_sign_prod_pos L X1 Cap Cab HL Hpos I1), (c14_sign_prod_pos L X2 Cpb Cab HL Hpos I2).
+    assert (Hp * Cab < 0) by nia.
+    destruct (Z.leb_spec 0 Cap); destruct (Z.leb_spec 0 Cpb); cbn [andb]; try reflexivity; exfalso; nia.
+  - assert (Hn : Cab < 0) by lia.
+    rewrite (c14_sign_prod_neg L X1 Cap Cab HL Hn I1), (c14_sign_prod_neg L X2 Cpb Cab HL Hn I2).
+    assert (0 < Hp * Cab) by nia.
+    destruct (Z.leb_spec 0 (- Cap)); destruct (Z.leb_spec 0 (- Cpb)); cbn [andb]; try reflexivity; exfalso; nia.
+Qed.
+
+Lemma c14_pwg_meridian_correct a b p :
+  c14_lon_eq (c14_lon_f a) (c14_lon_f b) = true ->
+  c14_cross a b <> (0, 0, 0) ->
+  c14_is_pole a = false -> c14_is_pole b = false -> c14_is_pole p = false ->
+  (c14_x a <> 0 \/ c14_y a <> 0) -> (c14_x b <> 0 \/ c14_y b <> 0) -> (c14_x p <> 0 \/ c14_y p <> 0) ->
+  (c14_triple a b p = 0 \/ c14_plane_ok a b p = false) ->
+  c14_pwg a b p = Some (c14_on_arc a b p).
+Proof.
+  intros Heq Hn Pa Pb Pp Da Db Dp Hpl.
+  unfold c14_pwg.
+  assert (Anti : c14_antipodal a b = false).
+  { unfold c14_antipodal. apply c14_is0_false in Hn. rewrite Hn. reflexivity. }
+  rewrite Anti.
+  destruct Hpl as [Ht|Hpl].
+  2:{ rewrite Hpl. cbn [negb]. f_equal. symmetry. rewrite c14_on_arc_unfold.
+      apply c14_plane_ok_false_triple in Hpl.
+      destruct (Z.eqb_spec (c14_triple a b p) 0); [contradiction|reflexivity]. }
+  rewrite (c14_plane_ok_exact a b p Ht). cbn [negb].
+  rewrite (c14_lon_f_plain a Pa Da), (c14_lon_f_plain b Pb Db), (c14_lon_f_plain p Pp Dp) in *.
+  rewrite Heq.
+  unfold c14_lat_f. rewrite Pa, Pb, Pp.
+  destruct a as [[xa ya] za], b as [[xb yb] zb], p as [[xp yp] zp].
+  unfold c14_x, c14_y, c14_z in Da, Db, Dp; cbn [fst snd] in Da, Db, Dp.
+  unfold c14_lon_eq, c14_cross2, c14_dot2, c14_x, c14_y, c14_z in Heq |- *; cbn [fst snd] in Heq |- *.
+  assert (Eab : xa * yb - ya * xb = 0) by lia.
+  assert (HHb : 0 < xa * xb + ya * yb) by lia.
+  set (L := xa * xa + ya * ya).
+  set (Hb := xa * xb + ya * yb) in *.
+  set (Hp := xa * xp + ya * yp).
+  set (Cab := L * zb - za * Hb).
+  set (Cap := L * zp - za * Hp).
+  set (Cpb := Hp * zb - zp * Hb).
+  assert (HL : 0 < L) by (apply c14_sq_sum_pos; exact Da).
+  (* the plane normal is Cab * (ya, -xa, 0) / L *)
+  pose proof (c14_mer_nx xa ya za xb yb zb Eab) as Nx.
+  pose proof (c14_mer_ny xa ya za xb yb zb Eab) as Ny.
+  cbv zeta in Nx, Ny. fold L Hb Cab in Nx, Ny.
+  assert (HCab : Cab <> 0).
+  { intros E. apply Hn. unfold c14_cross, c14_x, c14_y, c14_z; cbn [fst snd].
+    rewrite E in Nx, Ny. rewrite Z.mul_0_r in Nx, Ny.
+    pose proof (c14_mul_pos_zero _ _ HL Nx) as N1. pose proof (c14_mul_pos_zero _ _ HL Ny) as N2.
+    rewrite N1, N2, Eab. reflexivity. }
+  pose proof (c14_mer_triple xa ya za xb yb zb xp yp zp Eab) as MT. cbv zeta in MT.
+  rewrite Ht in MT. fold L Hb Cab in MT.
+  rewrite Z.mul_0_r in MT. pose proof (c14_mul_nonzero_zero _ _ HCab MT) as Eap.
+  pose proof (c14_mer_id1 xa ya za xb yb zb xp yp zp Eab Eap) as I1.
+  pose proof (c14_mer_id2 xa ya za xb yb zb xp yp zp Eab Eap) as I2.
+  pose proof (c14_mer_three xa ya za xb yb zb xp yp zp) as I3.
+  pose proof (c14_mer_Hb2 xa ya xb yb xp yp Eab Eap) as Q1.
+  pose proof (c14_mer_Hp2 xa ya xb yb xp yp Eab Eap) as Q2.
+  cbv zeta in I1, I2, I3, Q1, Q2. fold L Hb Hp Cab Cap Cpb in I1, I2, I3, Q1, Q2.
+  assert (HHp : Hp <> 0).
+  { apply (c14_sq_nonzero L Hp (xp * xp + yp * yp) HL (c14_sq_sum_pos _ _ Dp) Q2). }
+  assert (Ecross : (xa * yp - ya * xp =? 0) = true) by lia. rewrite Ecross. cbn [andb].
+  rewrite c14_on_arc_unfold, Ht. cbn [Z.eqb andb].
+  set (X1 := c14_dot (c14_cross (xa, ya, za) (xp, yp, zp)) (c14_cross (xa, ya, za) (xb, yb, zb))) in *.
+  set (X2 := c14_dot (c14_cross (xp, yp, zp) (xb, yb, zb)) (c14_cross (xa, ya, za) (xb, yb, zb))) in *.
+  destruct (Z.ltb_spec 0 Hp) as [Hpos|Hneg].
+  - (* same meridian half: latitude interval *)
+    f_equal. unfold c14_lat_between, c14_lat_of, c14_nsq, c14_dot, c14_x, c14_y, c14_z; cbn [fst snd].
+    assert (QL : L * L = L * (xa * xa + ya * ya)) by (unfold L; ring).
+    rewrite (c14_lat_le_meridian L za (xa * xa + ya * ya) L zp (xp * xp + yp * yp) Hp HL HL Hpos QL Q2).
+    rewrite (c14_lat_le_meridian L zp (xp * xp + yp * yp) Hp zb (xb * xb + yb * yb) Hb HL Hpos HHb Q2 Q1).
+    rewrite (c14_lat_le_meridian L zb (xb * xb + yb * yb) Hb zp (xp * xp + yp * yp) Hp HL HHb Hpos Q1 Q2).
+    rewrite (c14_lat_le_meridian L zp (xp * xp + yp * yp) Hp za (xa * xa + ya * ya) L HL Hpos HL Q2 QL).
+    fold Cap Cpb.
+    assert (E3 : Hb * zp - zb * Hp = - Cpb) by (unfold Cpb; ring).
+    assert (E4 : Hp * za - zp * L = - Cap) by (unfold Cap; ring).
+    rewrite E3, E4.
+    exact (c14_between_same_half L Hb Hp Cab Cap Cpb X1 X2 HL HHb Hpos HCab I1 I2 I3).
+  - (* opposite meridian half: rejected, and indeed not on the arc *)
+    assert (Hp < 0) by lia.
+    assert (Ed : (0 <? Hp) = false) by lia.
+    f_equal. symmetry.
+    exact (c14_not_on_arc_other_half L Hb Hp Cab Cap Cpb X1 X2 HL HHb H HCab I1 I2 I3).
+Qed.
+
 (* ------------------------------------------------------------------------------------------ *)
 (* over R: along a great circle parametrised by the angle t, z(t) = z1 cos t + z2 sin t is
    Zc cos(t - t0); on a parameter interval that contains no apex angle (t0 + 2k pi) it is largest
@@ -923,4 +1124,11 @@ Example c14_ex_extreme :
   c14_nsq a = 5 * 5 /\ c14_nsq b = 5 * 5 /\ c14_node3 a 5 b 5 <> (0, 0, 0) /\
   c14_extreme a 5 b 5 true = (7200, 66420000) /\ c14_extreme_spec a b true = (288, 106272) /\
   7200 * 7200 * 106272 = 288 * 288 * 66420000.
+Proof. cbv zeta. repeat split; try (vm_compute; congruence). Qed.
+
+Example c14_ex_meridian :
+  let a := (3, 0, 1) in let b := (2, 0, 5) in let p := (1, 0, 1) in
+  c14_lon_eq (c14_lon_f a) (c14_lon_f b) = true /\ c14_cross a b <> (0, 0, 0) /\
+  c14_is_pole a = false /\ c14_is_pole b = false /\ c14_is_pole p = false /\ c14_triple a b p = 0 /\
+  c14_pwg a b p = Some true /\ c14_pwg a b (-1, 0, 1) = Some false /\ c14_on_arc a b (-1, 0, 1) = false.
 Proof. cbv zeta. repeat split; try (vm_compute; congruence). Qed.
